@@ -179,6 +179,12 @@ where
 {
     fn write(&mut self, buf: &[u8]) -> std::io::Result<usize> {
         let total_len = (self.max_pdu_length + PDU_HEADER_SIZE) as usize;
+        if self.buffer.len() == total_len && !buf.is_empty() {
+            // the buffer was filled exactly by previous writes:
+            // send it before taking more data,
+            // so that a non-empty write never reports 0 bytes written
+            self.dispatch_pdu()?;
+        }
         if self.buffer.len() + buf.len() <= total_len {
             // accumulate into buffer, do nothing
             self.buffer.extend(buf);
@@ -578,6 +584,12 @@ pub mod non_blocking {
                                     if written == this.buffer.len() {
                                         // If we wrote the whole buffer, reset `self.buffer`
                                         this.buffer.truncate(PDU_PDV_HEADER_SIZE);
+                                        if consumed == 0 && this.buffer.len() < total_len {
+                                            // the buffer had been filled exactly by previous writes,
+                                            // so nothing was taken from `buf` yet:
+                                            // take it now instead of reporting 0 bytes written
+                                            return self.poll_write(cx, buf);
+                                        }
                                         return Poll::Ready(Ok(consumed));
                                     }
                                 }
@@ -620,6 +632,11 @@ pub mod non_blocking {
                                     // If we wrote the whole buffer, reset `self.buffer` and change state back to ready
                                     this.buffer.truncate(PDU_PDV_HEADER_SIZE);
                                     this.state = WriteState::Ready;
+                                    let total_len = (this.max_pdu_length + PDU_HEADER_SIZE) as usize;
+                                    if consumed == 0 && !buf.is_empty() && this.buffer.len() < total_len {
+                                        // see the `Ready` case: nothing was taken from `buf` yet
+                                        return self.poll_write(cx, buf);
+                                    }
                                     return Poll::Ready(Ok(consumed));
                                 }
                             }
